@@ -70,6 +70,16 @@ CLAIMS = {
    note="Ranges are quantified symbolically over 0<=first<=last<=31 and ofs<1024, 1<=width<=64 (64-bit ints as bit-vectors). " + TB,
    technique="contract-based deductive verification: WP/symbolic execution over go/ssa, QF_BV obligations, z3/cvc5",
    design="DESIGN.md section 4 C16"),
+ "C05": dict(
+   text="Deductive proof, per kind, by symbolic execution of the real encoder followed by the real decoder and the real encoder again (lemma functions generated by `govc genrt`, contracts `inlinecalls`): for 76 leaf kinds (every match-field payload type, every fixed-layout action, instruction header kinds, stats/request bodies, vendor payloads, header-only messages) lemmaRT<T> proves for a symbolic well-formed value followed by symbolic trailing bytes: decode succeeds, every exported field of the result equals the original's (byte slices compared by length and content), the decoder consumed exactly size(v) bytes (trailing bytes are irrelevant to the result), and re-encoding reproduces the bytes; for 76 constructors lemmaDisp<NewX> proves that the value a constructor builds, once encoded, is decoded by the dispatching decoder (DecodeMatchField / DecodeAction / DecodeInstr / Parse) into the same dynamic kind with the same header fields and that re-encoding reproduces the bytes. Element lists: the list decoders' contracts (C07) prove that each element decoder is applied at the offset where the previous element's size ended, so position-independence follows from the 'consumed exactly size(v), ignores the rest' postcondition of each leaf lemma.",
+   note="Not covered by a lemma: container kinds whose round trip needs an inductive invariant over element bytes (Match with its field list, FlowMod/GroupMod/PacketOut/MultipartReply with element lists, NXActionConjunction-style learn specs, TunMetadata fields) - their sizes/lengths/types are covered by C01/C02/C06/C13 and their decoders by C07/C12, but 'decode(encode(v)) == v' for them is NOT proved here. Two constructors (NXM_0 ARP SPA/TPA) fail their dispatch lemma: known findings. " + TB,
+   technique="contract-based deductive verification: generated round-trip lemma functions executed symbolically (encoder;decoder;encoder of the real code inlined), byte memories with interval reasoning, QF_AUFBV, z3/cvc5",
+   design="DESIGN.md section 4 C05"),
+ "C09": dict(
+   text="Deductive proof by lemma functions over the real codecs (symbolic field values, symbolic payload lengths up to the 16-bit frame limit): (a) leaf kinds ARP, ICMP, UDP, TCP (with options), VLAN, IGMPv1/2, IPv6 Option and FragmentHeader: decode(encode(v)) has equal fields, consumed size equals size(v), re-encoding reproduces the bytes, sub-byte fields within their lanes; (b) composite frames Ethernet[/VLAN tag with VID != 0]/IPv4(IHL 5..15 with options)/{UDP, ICMP, other}, Ethernet/ARP, Ethernet/other ethertype, Ethernet/IPv6 with extension chains {none, routing, fragment, routing+fragment, hop-by-hop with one option} and payload {UDP, ICMPv6, other}: the decoder picks the payload kind from the ethertype after the tag, the IPv4 protocol number and the last next-header byte of the chain, every field of every layer (VLAN PCP/DEI/VID, IPv4 version/IHL/DSCP/ECN/flags/fragment offset, IPv6 class/flow label, fragment offset/more flag) is recovered and the frame re-encodes to the same bytes. The IPv6 chain loops are unrolled with a proved unwinding obligation (complete for the stated chain shapes).",
+   note="NOT proved here (no lemma): IGMPv3 query/report/group record, DHCP, LLDP, hop-by-hop headers with more than one option, and IPv6 chains that repeat a header kind; for these kinds only safety/termination (C08), ownership (C12) and size consistency (C06/C13) are proved. Priority tags (VLAN id 0) are two known findings (the type cannot represent them). Well-formedness assumed by the lemmas is written out in the contracts (ethwf/ip4wf/ip6base: address lengths, field widths, options length = 4*IHL-20, chain consistent with next-header bytes). " + TB,
+   technique="contract-based deductive verification: composite round-trip/demux lemma functions executed symbolically over the real encoders and decoders, loop unrolling with unwinding obligations, byte memories with interval reasoning, QF_AUFBV, z3/cvc5",
+   design="DESIGN.md section 4 C09"),
 }
 
 NOT_YET = {
